@@ -30,6 +30,14 @@ type Reader struct {
 	EOFWithDataFired   bool
 }
 
+// Data returns the bytes this reader can deliver (up to an injected error).
+func (r *Reader) Data() []byte {
+	if r.plan.ErrAt >= 0 && r.plan.ErrAt < len(r.data) {
+		return r.data[:r.plan.ErrAt]
+	}
+	return r.data
+}
+
 func NewReader(data []byte, plan ReaderPlan, tape *Tape) *Reader {
 	return &Reader{data: data, plan: plan, tape: tape}
 }
